@@ -8,7 +8,7 @@ git -C /repo worktree remove --force $WT 2>/dev/null; rm -rf $WT
 git -C /repo worktree add -q --detach $WT HEAD || exit 2
 cmake -G Ninja -S $WT -B $WT/_build -DCMAKE_BUILD_TYPE=RelWithDebInfo -DWB_ENABLE_PYTHON=OFF > $LOG/configure.log 2>&1 || cmake -G Ninja -S $WT -B $WT/_build -DCMAKE_BUILD_TYPE=RelWithDebInfo > $LOG/configure.log 2>&1
 cmake --build $WT/_build -j16 > $LOG/build_base.log 2>&1 || { echo "baseline build failed"; exit 2; }
-ctest --test-dir $WT/_build -j16 --timeout 900 2>&1 | grep -E "Test +#" | sed 's/ *[0-9.]* sec.*//' | sort > $LOG/ctest_base.txt
+ctest --test-dir $WT/_build -j16 --timeout 900 2>&1 | grep -E "Test +#" | sed -E 's/^ *[0-9]+\/[0-9]+ //; s/ *[0-9.]+ sec.*//' | sort > $LOG/ctest_base.txt
 echo "baseline: $(grep -c Passed $LOG/ctest_base.txt) passed, $(grep -vc Passed $LOG/ctest_base.txt) not passed"
 for d in "$@"; do
   id=$(basename $d); p=$(realpath $d/patch.diff)
@@ -17,7 +17,7 @@ for d in "$@"; do
   if ! git -C $WT apply --check $p 2>/dev/null; then echo "$id: PATCH DOES NOT APPLY to HEAD"; continue; fi
   git -C $WT apply $p
   cmake --build $WT/_build -j16 > $LOG/$id.build.log 2>&1 || { echo "$id: build fails with patch"; git -C $WT checkout -- .; cmake --build $WT/_build -j16 >/dev/null 2>&1; continue; }
-  ctest --test-dir $WT/_build -j16 --timeout 900 2>&1 | grep -E "Test +#" | sed 's/ *[0-9.]* sec.*//' | sort > $LOG/$id.ctest.txt
+  ctest --test-dir $WT/_build -j16 --timeout 900 2>&1 | grep -E "Test +#" | sed -E 's/^ *[0-9]+\/[0-9]+ //; s/ *[0-9.]+ sec.*//' | sort > $LOG/$id.ctest.txt
   if diff -q $LOG/ctest_base.txt $LOG/$id.ctest.txt >/dev/null; then t=same; else t=DIFFERENT; fi
   ( cd $d && ./demo.sh $WT > $LOG/$id.demo_mut.log 2>&1 ); m=$?
   echo "$id: demo baseline exit $b, ctest with patch $t, demo with patch exit $m"
